@@ -154,8 +154,22 @@ class C09(Profile):
         from .monitors.c09 import RewriteMonitor  # noqa: PLC0415
         return [RewriteMonitor]
 
-    clients = [(cl.Builder, 4), (cl.Composer, 2.5), (cl.Rewriter, 3),
-               (cl.Tuner, 1), (cl.Bystander, 0.5)]
+    expected_probes = ["rewrite_unpack", "rewrite_compress",
+                       "rewrite_remove_nonadj", "copy_plain", "copy_frozen",
+                       "holder_reread_after_rewrite"]
+
+    @property
+    def clients(self):
+        from . import consumers as co  # noqa: PLC0415
+        return [(cl.Builder, 4), (cl.Composer, 2.5), (cl.Rewriter, 3),
+                (cl.Tuner, 1), (cl.Bystander, 0.5), (co.SamplerUser, 0.8),
+                (co.QuickUser, 0.5)]
+
+    def swarm(self, rng):
+        cfg = super().swarm(rng)
+        cfg["emu_max_modes"] = 6
+        cfg["max_photons"] = 2
+        return cfg
 
 
 class C10(Profile):
